@@ -157,6 +157,13 @@ class SymIO(object):
             return io.StringIO(c).readlines()
         if isinstance(c, LinesText):
             return list(c.lines)
+        if isinstance(c, SymStr):
+            parts = models._split_impl(I, c, "\n", -1, False)
+            lines = [mk([p, "\n"]) for p in parts[:-1]]
+            last = parts[-1]
+            if I.truth(last):
+                lines.append(last)
+            return lines
         I.unsupported("readlines of a symbolic text")
 
     def close(self):
@@ -754,11 +761,14 @@ def _ini_doc_eq(I, a, b):
     for (_, ia), (_, ib) in zip(a.sections, b.sections):
         if [k for k, _ in ia] != [k for k, _ in ib]:
             return False
-        for (_, va), (_, vb) in zip(ia, ib):
+        for (ka, va), (_, vb) in zip(ia, ib):
             e = I.eq(va, vb)
             if e is False:
                 return False
             if e is not True:
+                if os.environ.get("PSX_DEBUG"):
+                    import sys
+                    sys.stderr.write("[psx] ini eq non-trivial: %s %r %r\n" % (ka, va, vb))
                 terms.append(models.bterm(e))
     return mkbool(And(*terms))
 
